@@ -274,7 +274,18 @@ def rule_dispatch(P) -> RuleResult:
             if p.decisions:
                 raise AnalysisError(f'{oc.fq}: undecided test `{_sh(p.decisions[0][0])[:60]}`')
             outcomes.setdefault(key, []).append([e[1] for e in p.events if e[0] == 'did'] + (['raise ' + p.value[0]] if p.outcome == 'raise' else []))
-    if not legacy_seen or len(set(legacy_seen)) != 1:
+    if not legacy_seen:
+        # no fixed set of bare command names: then every line without the dot prefix must be a statement
+        bare_cmd = sorted({(known, tuple(ev)) for (dotted, known, _l), evs in outcomes.items() if not dotted for ev in evs if ev != ['execute']})
+        if bare_cmd:
+            res.fail(oc.fq, 'dispatch:bare:open', f'a line without the dot prefix is run as a command ({list(bare_cmd[0][1])}) although its first '
+                     f'word is not tested against a fixed set of legacy command names: with a test like "a do_ method exists" every '
+                     f'command name (tables, describe, explain, reload ...) typed without the dot is run as a command instead of being '
+                     f'parsed as a statement', loc(oc))
+        else:
+            res.ok({'legacy_commands': [], 'bare_lines': 'always statements'})
+        return res
+    if len(set(legacy_seen)) != 1:
         raise AnalysisError(f'legacy command set of onecmd not found on terms ({len(set(legacy_seen))} candidate sets)')
     legacy = set(legacy_seen[0])
     from .compiler_rules import grammar_classes
